@@ -428,7 +428,8 @@ def _spec(draw, tier):
     return {"t": "spec", "n": n, "other": other, "pos": pos, "neg": draw(st.booleans()),
             "none": draw(st.booleans()) if pos == ndim - 1 else False, "si": draw(_SI), "corners": [i0, i1, i2, i3],
             "cplx": draw(st.booleans()), "basis": False, "seed": draw(_SEED), **draw(_DIMS),
-            "dt": draw(st.sampled_from(["f8", "f8", "f8", "f4", "i2"])), "spk": draw(st.sampled_from(["c16", "c16", "c8", "f8", "f4"])),
+            "dt": draw(st.sampled_from(["f8", "f8", "f8", "f4", "i2"])),
+            "spk": draw(st.sampled_from(["c16", "c16", "c8", "f8", "f4"])),
             "bk": draw(st.sampled_from(BOXES)), "sik": draw(st.sampled_from(SI_KINDS)), "nk": draw(_NK),
             "omit": draw(st.booleans()), "ff": draw(st.integers(0, 3)) == 0, "typ": draw(st.sampled_from(TYPS))}
 
@@ -470,7 +471,8 @@ def _cos(draw, tier):
     return {"t": "cos", "b0": b0, "b1": b1, "int": integer, "npts": draw(st.integers(1, 400)),
             "arr": draw(st.booleans()), "two_d": draw(st.booleans()), "seed": draw(_SEED), **draw(_DIMS),
             # dtype of the samples: "" = float64 / int64 as generated; f4, i4, u2 only take effect on integer bounds (u2: b0 >= 0)
-            "xdt": draw(st.sampled_from(["", "", "f4", "i4", "u2", "u2"])), "bk": draw(st.sampled_from(["", "", "tuple", "arr_ro"])),
+            "xdt": draw(st.sampled_from(["", "", "f4", "i4", "u2", "u2"])),
+            "bk": draw(st.sampled_from(["", "", "tuple", "arr_ro"])),
             "form": draw(st.integers(0, 2))}
 
 
@@ -1256,7 +1258,8 @@ def _run_cos(case, ctx):
         check(y, "first call")
         if isinstance(y, np.ndarray):
             # voltage.fk multiplies the taper it gets in place
-            ctx.check(y.flags.writeable, "C18.cosine_result_readonly", "the taper is returned read-only (fk multiplies it in place)")
+            ctx.check(y.flags.writeable, "C18.cosine_result_readonly",
+                      "the taper is returned read-only (fk multiplies it in place)")
     if rep:
         _scribble(y if y is not ctx.CRASH else None)
         if rep == 2:
